@@ -62,6 +62,10 @@ def classify(kind, sk, info):
     d = tg.info_dict(info)
     if kind == "neg-str":
         return "C03-neg-unchecked"
+    if kind in ("generic-tuple-cmp", "generic-local-tuple-add"):
+        # a constraint between tuples one of whose components is a still-unknown parameter is not pushed down to
+        # that component: the instantiation at the call site never sees it
+        return "C03-generic-component-constraint"
     if kind == "ret-type":
         # innermost function's part of the path
         path = d.get("path", "")
